@@ -65,6 +65,50 @@ def clockRun (clock : α) : List α → List α
 
 end basic
 
+section post
+variable {α : Type} [Add α] [Sub α] [Mul α] [Div α] [Neg α] [Zero α] [One α]
+  [LT α] [DecidableLT α] [LE α] [DecidableLE α]
+
+/-- what the population balance of the grain-growth model holds: number of classes, distribution, class
+boundaries and the stored class centres (`pbm.bins`, `pbm.PSD`, `pbm.PSDbounds`, `pbm.PSDsize`) -/
+structure GState (α : Type) where
+  n : Nat
+  psd : Nat → α
+  bounds : Nat → α
+  size : Nat → α
+
+/-- class volumes `PSD * PSDsize**3` (summand of `ThirdMoment` / `CumulativeMoment(3)`) of a stored state -/
+def vol3 (s : GState α) : Nat → α := fun i => s.psd i * npow (s.size i) 3
+
+/-- `pbm.getDissolutionIndex(maxDissolution, 0)` evaluated on a stored state: the index is a function of the
+distribution and the grid the population balance holds at the moment of the call. -/
+def stateIndex (maxDiss : α) (s : GState α) : Nat := PBM.dissolutionIndex s.n maxDiss (vol3 s) 0
+
+/-- result of `postProcess`: the stored state and the stored `self.dissolutionIndex` -/
+structure Post (α : Type) where
+  state : GState α
+  index : Nat
+
+/-- `GrainGrowthModel.postProcess` (GrainGrowth.py 254-258), in the code's order of operations:
+1. `pbm.UpdatePBMEuler(time, x[0])` — the new distribution, classes holding less than 1 emptied;
+2. `pbm.adjustSizeClassesEuler(True)` — the grid may be extended or RE-BINNED (other class count and width;
+   the grid operation itself is `KawinV.Grid.adjust`, property C08; here any function of the state);
+3. `self.dissolutionIndex = pbm.getDissolutionIndex(self.maxDissolution, 0)` — on the ADJUSTED grid;
+4. `Normalize()`.
+The index stored in step 3 is the one `getDt → pbm.getDTEuler` uses in the next iteration, on the grid left by step 2. -/
+def postProcess (adjust : GState α → GState α) (maxDiss : α) (x : Nat → α) (s : GState α) : Post α :=
+  let s1 : GState α := { s with psd := truncate x }
+  let s2 := adjust s1
+  let idx := stateIndex maxDiss s2
+  { state := { s2 with psd := normalize s2.n s2.psd s2.size }, index := idx }
+
+/-- `getDt`: `pbm.getDTEuler(finalTime - time[-1], self._growthRate, self.dissolutionIndex)` (default
+`maxBinRatio = 0.4` passed as `ratio`) on the stored state with the stored index -/
+def getDt (remaining ratio : α) (growth : Nat → α) (p : Post α) : α :=
+  PBM.getDT p.state.n p.index remaining ratio growth p.state.psd p.state.bounds
+
+end post
+
 section mean
 variable {α : Type} [Add α] [Sub α] [Mul α] [Div α] [Neg α] [Zero α] [One α]
   [LT α] [DecidableLT α] [LE α] [DecidableLE α] [Trans α]
